@@ -1,5 +1,465 @@
 import U3.Model.Hostname
+import U3.Lemmas.Hostname
+/-!
+# C08 — certificate name and fingerprint matching accept exactly what the rules allow
+
+All theorems are about the executable model `U3.Hostname` (the definitions the driver `u3model
+hostname` runs against the real urllib3 on every check) and hold for **all** strings, not the small
+label alphabet of the enumeration.  `san`, `host`, labels are arbitrary code-point lists.
+
+A real host name never contains `*`; where a clause can only be stated for such hosts the hypothesis
+`star ∉ host` is explicit (the counter-examples with a literal star in the host are given).
+
+Two clauses hold only in a restricted form on the unchanged code (see `known_findings/C08.json` and
+`notes/C08.md`); they are the `…_partial` theorems, each followed by the witness that refutes the
+full statement:
+
+* an exact dNSName match is not reached when an *earlier* dNSName has ≥ 2 stars in its left-most
+  label (`C08_exact_san_accepts_partial`);
+* an A-label is recognised only by the lower-case prefix `xn--` (`C08_rejects_wildcard_in_alabel_partial`).
+-/
 namespace U3.Props
 open U3 U3.Hostname
-theorem C08_placeholder : (1:Nat) = 1 := rfl
+
+/-! ## dNSName against a DNS host (`_dnsname_match`) -/
+
+/-- An entry without wildcard that equals the host up to (ASCII) case is accepted. -/
+theorem C08_exact_accepts {san host : Str} (hn : san ≠ []) (hs : star ∉ san) (h : lower san = lower host) :
+    dnsnameMatch san host = .ok true := by
+  obtain ⟨l, r, hsp⟩ := split_cons_of_ne_nil san
+  have hl : l.count star = 0 :=
+    List.count_eq_zero.2 fun hx => hs (mem_of_mem_splitOn1 (hsp ▸ List.mem_cons_self) hx)
+  rw [dnsnameMatch_eq hn hsp]
+  simp [hl, h]
+
+example : dnsnameMatch (lit "Www.Example.COM") (lit "www.example.com") = .ok true := by decide
+
+/-- "exactly": an entry without wildcard accepts nothing but its own spelling up to case. -/
+theorem C08_nowildcard_iff {san host : Str} (hs : star ∉ san) :
+    dnsnameMatch san host = .ok true ↔ san ≠ [] ∧ lower san = lower host := by
+  by_cases hn : san = []
+  · subst hn; simp [dnsnameMatch_nil]
+  · obtain ⟨l, r, hsp⟩ := split_cons_of_ne_nil san
+    have hl : l.count star = 0 :=
+      List.count_eq_zero.2 fun hx => hs (mem_of_mem_splitOn1 (hsp ▸ List.mem_cons_self) hx)
+    rw [dnsnameMatch_eq hn hsp]
+    simp [hl, hn]
+
+example : dnsnameMatch (lit "a.b") (lit "a.bb") = .ok false := by decide
+
+/-- A whole-label wildcard covers exactly one non-empty left-most label: `*.rest` accepts
+`l.rest'` for every non-empty dot-free `l` when `rest'` equals `rest` label by label up to case. -/
+theorem C08_wildcard_one_label_accepts (rest rest' : List Str) (l : Str) (hl : l ≠ []) (hld : dot ∉ l)
+    (hrest : ∀ r ∈ rest, dot ∉ r) (hcase : rest.map lower = rest'.map lower) :
+    dnsnameMatch (joinWith [dot] ([star] :: rest)) (joinWith [dot] (l :: rest')) = .ok true := by
+  have hrest' : ∀ r ∈ rest', dot ∉ r := by
+    intro r' hr'
+    obtain ⟨i, hi, rfl⟩ := List.getElem_of_mem hr'
+    have hlen : rest.length = rest'.length := by simpa using congrArg List.length hcase
+    have hi' : i < rest.length := hlen ▸ hi
+    have := congrArg (fun x => x[i]?) hcase
+    simp only [List.getElem?_map, List.getElem?_eq_getElem hi, List.getElem?_eq_getElem hi', Option.map_some,
+      Option.some.injEq] at this
+    exact dot_notin_of_lower_eq this (hrest _ (List.getElem_mem hi'))
+  have hsan : splitOn1 dot (joinWith [dot] ([star] :: rest)) = [star] :: rest :=
+    splitOn1_join _ (by simp) (by
+      intro x hx; rcases List.mem_cons.1 hx with h | h
+      · subst h; decide
+      · exact hrest x h)
+  have hhost : splitOn1 dot (joinWith [dot] (l :: rest')) = l :: rest' :=
+    splitOn1_join _ (by simp) (by
+      intro x hx; rcases List.mem_cons.1 hx with h | h
+      · subst h; exact hld
+      · exact hrest' x h)
+  rw [dnsnameMatch_eq (joinWith_cons_ne_nil _ _ (by decide)) hsan]
+  have hall : l.all (fun x => x != dot) = true := by
+    rw [List.all_eq_true]; intro x hx
+    have : x ≠ dot := fun h => hld (h ▸ hx)
+    simpa using this
+  have hle : l.isEmpty = false := by cases l <;> simp_all
+  simp [star, matchPats, hhost, matchLeft, hall, hle, labelsEqCI_iff.2 hcase]
+
+example : dnsnameMatch (joinWith [dot] ([star] :: [lit "Example", lit "com"]))
+    (joinWith [dot] (lit "www" :: [lit "example", lit "COM"])) = .ok true := by decide
+
+/-- RFC 6125 6.4.3 (1): a `*` outside the left-most label is never a wildcard — an entry carrying one
+accepts no genuine (star-free) host name. -/
+theorem C08_rejects_wildcard_not_leftmost {san host : Str}
+    (h : ∃ l ∈ (splitOn1 dot san).tail, star ∈ l) (hh : star ∉ host) :
+    dnsnameMatch san host ≠ .ok true := by
+  obtain ⟨l, hl, hstar⟩ := h
+  by_cases hn : san = []
+  · subst hn; simp [dnsnameMatch_nil]
+  · obtain ⟨l0, r, hsp⟩ := split_cons_of_ne_nil san
+    rw [hsp] at hl; simp only [List.tail_cons] at hl
+    have hsan : star ∈ san := mem_of_mem_splitOn1 (hsp ▸ List.mem_cons_of_mem _ hl) hstar
+    rw [dnsnameMatch_eq hn hsp]
+    split
+    · simp
+    · split
+      · intro heq
+        simp only [Except.ok.injEq, beq_iff_eq] at heq
+        exact hh (star_mem_of_lower_eq heq hsan)
+      · intro heq
+        simp only [Except.ok.injEq] at heq
+        obtain ⟨h0, hs, hsplit, _, hlab⟩ := matchPats_true heq
+        obtain ⟨b, hb, hab⟩ := labelsEqCI_mem hlab hl
+        exact hh (mem_of_mem_splitOn1 (hsplit ▸ List.mem_cons_of_mem _ hb) (star_mem_of_lower_eq hab hstar))
+
+example : (∃ l ∈ (splitOn1 dot (lit "a.*.c")).tail, star ∈ l) ∧ star ∉ lit "a.b.c" ∧
+    dnsnameMatch (lit "a.*.c") (lit "a.b.c") = .ok false := by decide
+-- why `star ∉ host` is needed: the later labels are compared literally
+example : dnsnameMatch (lit "*.*") (lit "a.*") = .ok true := by decide
+
+/-- More than one `*` in the left-most label: `CertificateError`, whatever the host. -/
+theorem C08_rejects_multiple_wildcards_leftmost {san host leftmost : Str} {remainder : List Str}
+    (hs : splitOn1 dot san = leftmost :: remainder) (h : leftmost.count star > 1) :
+    dnsnameMatch san host = .error .certificateError := by
+  have hn : san ≠ [] := by
+    rintro rfl
+    simp only [splitOn1, List.cons.injEq] at hs
+    rw [← hs.1] at h; simp at h
+  rw [dnsnameMatch_eq hn hs]; simp [h]
+
+example : dnsnameMatch (lit "a*b*.c") (lit "ab.c") = .error .certificateError := by decide
+
+/-- RFC 6125 / the code's policy: an entry with more than one `*` anywhere accepts no genuine host. -/
+theorem C08_rejects_multiple_wildcards {san host : Str} (h : san.count star > 1) (hh : star ∉ host) :
+    dnsnameMatch san host ≠ .ok true := by
+  obtain ⟨l0, r, hsp⟩ := split_cons_of_ne_nil san
+  by_cases h0 : l0.count star > 1
+  · rw [C08_rejects_multiple_wildcards_leftmost hsp h0]; simp
+  · apply C08_rejects_wildcard_not_leftmost _ hh
+    have hsum := count_star_split san
+    rw [hsp] at hsum ⊢
+    simp only [List.map_cons, List.sum_cons, List.tail_cons] at hsum ⊢
+    have hpos : 0 < (r.map (List.count star)).sum := by omega
+    by_cases hex : ∃ l ∈ r, star ∈ l
+    · exact hex
+    · exact absurd (exists_star_of_sum_pos hpos) hex
+
+example : (lit "*.*.c").count star > 1 ∧ dnsnameMatch (lit "*.*.c") (lit "a.b.c") = .ok false := by decide
+
+/-- A wildcard never spans a dot: when the left-most label of the entry carries a `*`, an accepted
+host has exactly as many labels as the entry, and all labels after the first agree up to case — the
+wildcard's contribution is confined to the first label. -/
+theorem C08_rejects_wildcard_spanning_dots {san host leftmost : Str} {remainder : List Str}
+    (hs : splitOn1 dot san = leftmost :: remainder) (hw : star ∈ leftmost)
+    (h : dnsnameMatch san host = .ok true) :
+    (splitOn1 dot host).length = (splitOn1 dot san).length ∧
+    (splitOn1 dot host).tail.map lower = remainder.map lower := by
+  have hn : san ≠ [] := by
+    rintro rfl
+    simp only [splitOn1, List.cons.injEq] at hs
+    rw [← hs.1] at hw; simp at hw
+  have hc : leftmost.count star ≠ 0 := fun h0 => (List.count_eq_zero.1 h0) hw
+  rw [dnsnameMatch_eq hn hs] at h
+  by_cases h1 : leftmost.count star > 1
+  · rw [if_pos h1] at h; cases h
+  · rw [if_neg h1, if_neg hc] at h
+    simp only [Except.ok.injEq] at h
+    obtain ⟨h0, hs', hsplit, _, hlab⟩ := matchPats_true h
+    have hm := labelsEqCI_iff.1 hlab
+    rw [hsplit, hs]
+    refine ⟨?_, by simpa using hm.symm⟩
+    have := congrArg List.length hm
+    simp only [List.length_map] at this
+    simp [this]
+
+example : dnsnameMatch (lit "*.c") (lit "a.b.c") = .ok false := by decide
+example : dnsnameMatch (lit "a*.c") (lit "a.b.c") = .ok false := by decide
+
+/-- A whole-label wildcard never matches an empty label (`.example` or the empty host). -/
+theorem C08_rejects_wildcard_empty_label {san host : Str} {remainder hs' : List Str}
+    (hs : splitOn1 dot san = [star] :: remainder) (hh : splitOn1 dot host = [] :: hs') :
+    dnsnameMatch san host ≠ .ok true := by
+  have hn : san ≠ [] := by
+    rintro rfl
+    simp [splitOn1] at hs
+  rw [dnsnameMatch_eq hn hs]
+  simp [star, matchPats, hh, matchLeft]
+
+example : dnsnameMatch (lit "*.a") (lit ".a") = .ok false := by decide
+example : dnsnameMatch (lit "*") (lit "") = .ok false := by decide
+
+/- Full statement (RFC 5890 2.3.2.5: the ACE prefix is "xn--" *or any capitalisation thereof*):
+
+     splitOn1 dot san = leftmost :: remainder → star ∈ leftmost →
+     lower (leftmost.take 4) = xnPrefix → star ∉ host → dnsnameMatch san host ≠ .ok true
+
+   is FALSE for the code as it stands (witness below): `startswith("xn--")` is case-sensitive while
+   the regex is IGNORECASE.  Proved: the clause for the lower-case spelling of the prefix, on the
+   entry's side or (for partial wildcards) on the host's side. -/
+/-- RFC 6125 6.4.3 (3): a wildcard embedded in an A-label (`xn--…`) is taken literally, so such an
+entry accepts no genuine host name. -/
+theorem C08_rejects_wildcard_in_alabel_partial {san host leftmost : Str} {remainder : List Str}
+    (hs : splitOn1 dot san = leftmost :: remainder) (hw : star ∈ leftmost)
+    (hx : xnPrefix.isPrefixOf leftmost = true ∨ (xnPrefix.isPrefixOf host = true ∧ leftmost ≠ [star]))
+    (hh : star ∉ host) :
+    dnsnameMatch san host ≠ .ok true := by
+  have hn : san ≠ [] := by
+    rintro rfl
+    simp only [splitOn1, List.cons.injEq] at hs
+    rw [← hs.1] at hw; simp at hw
+  have hc : leftmost.count star ≠ 0 := fun h0 => (List.count_eq_zero.1 h0) hw
+  have hne : leftmost ≠ [star] := by
+    rcases hx with hx | hx
+    · rintro rfl; revert hx; decide
+    · exact hx.2
+  have hor : (xnPrefix.isPrefixOf leftmost || xnPrefix.isPrefixOf host) = true := by
+    rcases hx with hx | hx
+    · simp [hx]
+    · simp [hx.1]
+  rw [dnsnameMatch_eq hn hs]
+  by_cases h1 : leftmost.count star > 1
+  · rw [if_pos h1]; simp
+  · rw [if_neg h1, if_neg hc, if_neg hne, if_pos hor]
+    intro heq
+    simp only [Except.ok.injEq] at heq
+    obtain ⟨h0, hs', hsplit, hleft, _⟩ := matchPats_true heq
+    simp only [matchLeft, beq_iff_eq] at hleft
+    exact hh (mem_of_mem_splitOn1 (hsplit ▸ List.mem_cons_self) (star_mem_of_lower_eq hleft hw))
+
+example : dnsnameMatch (lit "xn--a*.b") (lit "xn--ab.b") = .ok false := by decide
+example : dnsnameMatch (lit "x*.b") (lit "xn--ab.b") = .ok false := by decide
+/-- witness against the full statement (known finding `alabel-wildcard-uppercase-ace-prefix`) -/
+theorem C08_alabel_uppercase_prefix_witness :
+    dnsnameMatch (lit "XN--a*.b") (lit "XN--ab.b") = .ok true ∧
+    dnsnameMatch (lit "xn--a*.b") (lit "XN--ab.b") = .ok false := by decide
+
+/-! ## whole certificates (`match_hostname`) -/
+
+/-- DNS entries (and commonName) against an IP host never match: when the requested host is an IP
+literal, only an iPAddress entry whose value matches can make `match_hostname` succeed. -/
+theorem C08_rejects_dns_san_for_ip_host {cert : Cert} {host : Str} {ip : IpAddr} {cn : Bool}
+    (hip : hostIpOf host = some ip)
+    (hno : ∀ e ∈ cert.san, e.1 = kIP → ipaddressMatch e.2 ip ≠ .ok true) :
+    matchHostname (some cert) host cn ≠ .ok () := by
+  unfold matchHostname
+  simp only [hip]
+  cases hl : sanLoop host (some ip) cert.san [] with
+  | error e => simp
+  | ok r =>
+    cases r with
+    | none =>
+      obtain ⟨e, he, hk, hm⟩ := sanLoop_ip_match hl
+      exact absurd hm (hno e he hk)
+    | some names => simp
+
+example : matchHostname (some ⟨[(kDNS, lit "1.2.3.4")], [[(kCN, lit "1.2.3.4")]]⟩) (lit "1.2.3.4") true
+    = .error .certificateError := by decide
+
+/-- iPAddress entries are compared by address value only: for an IP host and a certificate whose
+iPAddress entries all parse, `match_hostname` succeeds iff some entry denotes the same packed
+address — whatever the spelling on either side. -/
+theorem C08_ip_san_by_value_iff {cert : Cert} {host : Str} {ip : IpAddr} {cn : Bool}
+    (hip : hostIpOf host = some ip)
+    (hp : ∀ e ∈ cert.san, e.1 = kIP → (ipAddress (rstrip e.2)).isSome) :
+    matchHostname (some cert) host cn = .ok () ↔
+      ∃ e ∈ cert.san, e.1 = kIP ∧ ∃ a, ipAddress (rstrip e.2) = some a ∧ a.packed = ip.packed := by
+  have key := sanLoop_ip_iff (host := host) (ip := ip) (names := []) hp
+  unfold matchHostname
+  simp only [hip]
+  cases hl : sanLoop host (some ip) cert.san [] with
+  | error e => exact absurd hl (key.2 e)
+  | ok r =>
+    cases r with
+    | none => simp only [true_iff]; exact key.1.1 hl
+    | some names =>
+      have : ¬ (sanLoop host (some ip) cert.san [] = .ok none) := by rw [hl]; simp
+      simp only [Option.isNone_some, Bool.and_false, Bool.false_and, Bool.false_eq_true, if_false]
+      constructor
+      · intro h; cases h
+      · intro h; exact absurd (key.1.2 h) this
+
+-- different spellings, same value: accepted; same text class, different value: rejected;
+-- an IPv4 address is not its IPv4-mapped IPv6 address (4 packed bytes against 16)
+example : matchHostname (some ⟨[(kIP, lit "0:0:0:0:0:0:0:1")], []⟩) (lit "::1") = .ok () := by decide
+example : matchHostname (some ⟨[(kIP, lit "FE80::1\n")], []⟩) (lit "fe80:0::0:1%eth0") = .ok () := by decide
+example : matchHostname (some ⟨[(kIP, lit "1.2.3.4")], []⟩) (lit "1.2.3.5") = .error .certificateError := by decide
+example : matchHostname (some ⟨[(kIP, lit "::ffff:1.2.3.4")], []⟩) (lit "1.2.3.4") = .error .certificateError := by decide
+
+/-- `_ipaddress_match` itself: equal packed value iff accept. -/
+theorem C08_ipaddress_match_iff {ipname : Str} {ip : IpAddr} :
+    ipaddressMatch ipname ip = .ok true ↔ ∃ a, ipAddress (rstrip ipname) = some a ∧ a.packed = ip.packed := by
+  unfold ipaddressMatch
+  cases h : ipAddress (rstrip ipname) with
+  | none => simp
+  | some a => simp
+
+/-- commonName is ignored as soon as the certificate has a dNSName or iPAddress entry: the subject
+has no influence on the verdict, enabled or not. -/
+theorem C08_rejects_cn_when_san_present {cert : Cert} {host : Str} {cn : Bool} (subject' : List (List (Str × Str)))
+    (h : ∃ e ∈ cert.san, e.1 = kDNS ∨ e.1 = kIP) :
+    matchHostname (some cert) host cn = matchHostname (some { cert with subject := subject' }) host cn := by
+  unfold matchHostname
+  simp only
+  cases hl : sanLoop host (hostIpOf host) cert.san [] with
+  | error e => rfl
+  | ok r =>
+    cases r with
+    | none => rfl
+    | some names =>
+      have hne : names ≠ [] := (sanLoop_names hl).2 h
+      have : names.isEmpty = false := by cases names <;> simp_all
+      simp [this]
+
+example : matchHostname (some ⟨[(kDNS, lit "x.y")], [[(kCN, lit "a.b")]]⟩) (lit "a.b") true
+    = .error .certificateError := by decide
+
+/-- commonName is ignored when `hostname_checks_common_name` is off. -/
+theorem C08_rejects_cn_when_not_enabled {cert : Cert} {host : Str} (subject' : List (List (Str × Str))) :
+    matchHostname (some cert) host false = matchHostname (some { cert with subject := subject' }) host false := by
+  unfold matchHostname
+  simp
+
+example : matchHostname (some ⟨[], [[(kCN, lit "a.b")]]⟩) (lit "a.b") false = .error .certificateError ∧
+    matchHostname (some ⟨[], [[(kCN, lit "a.b")]]⟩) (lit "a.b") true = .ok () := by decide
+
+/- Full statement: `(kDNS, v) ∈ cert.san → star ∉ v → v ≠ [] → lower v = lower host → hostIpOf host = none →
+   matchHostname (some cert) host cn = .ok ()` is FALSE for the code as it stands (witness below): an
+   earlier dNSName with ≥ 2 stars in its left-most label raises `CertificateError` out of the loop.
+   Proved: the statement for certificates whose *earlier* entries do not raise. -/
+/-- An exact dNSName entry makes `match_hostname` succeed for a DNS host, provided no entry in front
+of it makes `_dnsname_match` raise. -/
+theorem C08_exact_san_accepts_partial {front back : List (Str × Str)} {subject : List (List (Str × Str))}
+    {v host : Str} {cn : Bool}
+    (hv : v ≠ []) (hs : star ∉ v) (heq : lower v = lower host) (hdns : hostIpOf host = none)
+    (hfront : ∀ e ∈ front, e.1 = kDNS → ∀ x, dnsnameMatch e.2 host ≠ .error x) :
+    matchHostname (some ⟨front ++ (kDNS, v) :: back, subject⟩) host cn = .ok () := by
+  have hm := C08_exact_accepts hv hs heq
+  have : ∀ names, sanLoop host none (front ++ (kDNS, v) :: back) names = .ok none := by
+    induction front with
+    | nil => intro names; rw [List.nil_append, sanLoop]; simp [hm]
+    | cons e rest ih =>
+      intro names
+      obtain ⟨key, value⟩ := e
+      have ih' := ih (fun e he => hfront e (List.mem_cons_of_mem _ he))
+      rw [List.cons_append, sanLoop.eq_def]
+      simp only
+      split
+      · rename_i hk
+        cases hd : dnsnameMatch value host with
+        | error x => exact absurd hd (hfront (key, value) (by simp) hk x)
+        | ok b => cases b <;> simp [ih']
+      · split <;> simp [ih']
+  unfold matchHostname
+  simp [hdns, this]
+
+example : matchHostname (some ⟨[(kDNS, lit "*.x"), (kIP, lit "::1")] ++ (kDNS, lit "b.a") :: [], []⟩) (lit "B.A")
+    = .ok () := by decide
+/-- witness against the full statement (known finding `accept-blocked-by-earlier-multi-wildcard-san`) -/
+theorem C08_exact_san_blocked_witness :
+    matchHostname (some ⟨[(kDNS, lit "**"), (kDNS, lit "b")], []⟩) (lit "b") = .error .certificateError ∧
+    matchHostname (some ⟨[(kDNS, lit "b"), (kDNS, lit "**")], []⟩) (lit "b") = .ok () := by decide
+
+/-- No certificate (`None` / `{}`): never accepted. -/
+theorem C08_rejects_missing_certificate (host : Str) (cn : Bool) : matchHostname none host cn = .error .valueError := rfl
+
+/-! ## the `_match_hostname` wrapper -/
+
+/-- Brackets are stripped only around IP literals; every other name reaches `match_hostname` untouched. -/
+theorem C08_wrapper_strips_brackets_only_for_ip (cert : Option Cert) (host : Str) (cn : Bool) :
+    matchHostnameWrapper cert host cn =
+      if isIpaddress (stripBrackets host) then matchHostname cert (stripBrackets host) cn
+      else matchHostname cert host cn := by
+  unfold matchHostnameWrapper
+  split <;> simp_all
+
+example : matchHostnameWrapper (some ⟨[(kIP, lit "::1")], []⟩) (lit "[0:0::1]") = .ok () ∧
+    matchHostname (some ⟨[(kIP, lit "::1")], []⟩) (lit "[0:0::1]") = .error .certificateError ∧
+    matchHostnameWrapper (some ⟨[(kDNS, lit "a")], []⟩) (lit "[a]") = .error .certificateError := by decide
+
+/-! ## fingerprints (`assert_fingerprint`), digests uninterpreted -/
+
+/-- The generated `HASHFUNC_MAP`: lengths 32 / 40 / 64 select md5 / sha1 / sha256 … -/
+theorem C08_hash_table_selects :
+    algOfLength 32 = some .md5 ∧ algOfLength 40 = some .sha1 ∧ algOfLength 64 = some .sha256 := by decide
+
+/-- … and no other length selects anything. -/
+theorem C08_hash_table_only (n : Nat) (alg : Alg) (h : algOfLength n = some alg) :
+    (n = 32 ∧ alg = .md5) ∨ (n = 40 ∧ alg = .sha1) ∨ (n = 64 ∧ alg = .sha256) := by
+  have hsel := C08_hash_table_selects
+  by_cases h32 : n = 32
+  · subst h32; rw [hsel.1] at h; cases h; simp
+  · by_cases h40 : n = 40
+    · subst h40; rw [hsel.2.1] at h; cases h; simp
+    · by_cases h64 : n = 64
+      · subst h64; rw [hsel.2.2] at h; cases h; simp
+      · have e1 : (32 == n) = false := by simpa using fun e : 32 = n => h32 e.symm
+        have e2 : (40 == n) = false := by simpa using fun e : 40 = n => h40 e.symm
+        have e3 : (64 == n) = false := by simpa using fun e : 64 = n => h64 e.symm
+        simp [algOfLength, hashEntry, Gen.hashfuncMap, List.find?, e1, e2, e3] at h
+
+/-- The length of the hex pin that selects an algorithm is twice that algorithm's digest size
+(md5 16, sha1 20, sha256 32 bytes). -/
+theorem C08_hash_table_digest_size (n : Nat) (alg : Alg) (h : algOfLength n = some alg) :
+    n = 2 * (match alg with | .md5 => 16 | .sha1 => 20 | .sha256 => 32 | .other _ => 0) := by
+  rcases C08_hash_table_only n alg h with ⟨rfl, rfl⟩ | ⟨rfl, rfl⟩ | ⟨rfl, rfl⟩ <;> rfl
+
+/-- Accept iff the normalised pin (colons removed, lower-cased) has a length listed in the table and
+is the hex of the digest the table selects for that length. -/
+theorem C08_fingerprint_iff (H : Alg → Bytes → Bytes) (cert : Bytes) (pin : Str) :
+    assertFingerprint H (some cert) pin = .ok () ↔
+      ∃ alg, algOfLength (normPin pin).length = some alg ∧ unhexlify (normPin pin) = some (H alg cert) := by
+  unfold assertFingerprint algOfLength
+  simp only
+  cases he : hashEntry (normPin pin).length with
+  | none => simp
+  | some e =>
+    obtain ⟨name, avail⟩ := e
+    cases avail with
+    | false => simp
+    | true =>
+      simp only [Option.some.injEq, exists_eq_left']
+      cases hu : unhexlify (normPin pin) with
+      | none => split <;> simp
+      | some b =>
+        have hsur : (normPin pin).any (fun c => decide (0xD800 ≤ c) && decide (c ≤ 0xDFFF)) = false := by
+          rw [List.any_eq_false]
+          intro c hc
+          have := hexVal_lt_128 (unhexlify_some_hex hu c hc)
+          simp; omega
+        simp only [hsur, Bool.false_eq_true, if_false, Option.some.injEq]
+        by_cases hb : H (algOfName name) cert = b
+        · simp [hb]
+        · have : (H (algOfName name) cert == b) = false := by simpa using hb
+          simp [this]; exact fun h => hb h.symm
+
+example : ∃ pin, assertFingerprint (fun _ _ => List.replicate 16 171) (some [1, 2, 3]) pin = .ok () :=
+  ⟨lit "AB:ab:AB:ab:AB:ab:AB:ab:AB:ab:AB:ab:AB:ab:AB:ab", by decide⟩
+
+/-- Pins of any other length are rejected. -/
+theorem C08_fingerprint_rejects_other_lengths (H : Alg → Bytes → Bytes) (cert : Option Bytes) (pin : Str)
+    (h : (normPin pin).length ≠ 32 ∧ (normPin pin).length ≠ 40 ∧ (normPin pin).length ≠ 64) :
+    assertFingerprint H cert pin ≠ .ok () := by
+  cases cert with
+  | none => simp [assertFingerprint]
+  | some c =>
+    intro hok
+    obtain ⟨alg, ha, _⟩ := (C08_fingerprint_iff H c pin).1 hok
+    rcases C08_hash_table_only _ _ ha with h' | h' | h' <;> omega
+
+example : assertFingerprint (fun _ _ => []) (some []) [] = .error .sslError := by decide
+
+/-- Case and colons are ignored: upper-casing the pin or inserting / removing a colon anywhere does
+not change the verdict. -/
+theorem C08_fingerprint_ignores_case_and_colons (H : Alg → Bytes → Bytes) (cert : Option Bytes) (a b : Str) :
+    assertFingerprint H cert (upper (a ++ b)) = assertFingerprint H cert (a ++ b) ∧
+    assertFingerprint H cert (a ++ colon :: b) = assertFingerprint H cert (a ++ b) := by
+  unfold assertFingerprint
+  rw [normPin_upper, normPin_insert_colon]
+  exact ⟨rfl, rfl⟩
+
+/-- A pin that decodes to anything but the selected digest is rejected (single-nibble flips,
+foreign digests): the comparison is on the whole digest. -/
+theorem C08_fingerprint_rejects_wrong_digest (H : Alg → Bytes → Bytes) (cert : Bytes) (pin : Str) (alg : Alg) (b : Bytes)
+    (ha : algOfLength (normPin pin).length = some alg) (hu : unhexlify (normPin pin) = some b) (hne : b ≠ H alg cert) :
+    assertFingerprint H (some cert) pin ≠ .ok () := by
+  intro hok
+  obtain ⟨alg', ha', hu'⟩ := (C08_fingerprint_iff H cert pin).1 hok
+  rw [ha] at ha'; cases ha'
+  rw [hu] at hu'; cases hu'
+  exact hne rfl
+
 end U3.Props
